@@ -6,6 +6,7 @@ import (
 	"go/parser"
 	"go/token"
 	"go/types"
+	"regexp"
 	"strconv"
 	"strings"
 
@@ -40,6 +41,7 @@ type FuncContract struct {
 	LoopDec      map[int]ast.Expr
 	StreamInv    map[int][]Clause
 	StreamAssume map[int][]Clause
+	StreamStep   map[int]map[string][]Clause // per stream, per input trace (IN | INM | END): per-event transfer obligations
 	Flags        map[string]bool // pure, inline, trusted
 	Lets         []Clause        // ghost definitions evaluated at entry: let name: expr
 }
@@ -240,7 +242,7 @@ func (cs *Contracts) parseFile(text string, pkg *types.Package, file string) (er
 		switch {
 		case strings.HasPrefix(l, "func "):
 			sel := strings.TrimSpace(l[5:])
-			cur = &FuncContract{Selector: sel, Pkg: pkg, File: file, LoopInv: map[int][]Clause{}, LoopDec: map[int]ast.Expr{}, StreamInv: map[int][]Clause{}, StreamAssume: map[int][]Clause{}, Flags: map[string]bool{}}
+			cur = &FuncContract{Selector: sel, Pkg: pkg, File: file, LoopInv: map[int][]Clause{}, LoopDec: map[int]ast.Expr{}, StreamInv: map[int][]Clause{}, StreamAssume: map[int][]Clause{}, StreamStep: map[int]map[string][]Clause{}, Flags: map[string]bool{}}
 			curLemma = nil
 			key := pkg.Path() + "|" + sel
 			if _, dup := cs.Funcs[key]; dup {
@@ -298,6 +300,15 @@ func (cs *Contracts) parseFile(text string, pkg *types.Package, file string) (er
 				cur.StreamAssume[n] = append(cur.StreamAssume[n], mkClause(strings.SplitN(l, "assumes", 2)[1]))
 			case "invariant":
 				cur.StreamInv[n] = append(cur.StreamInv[n], mkClause(strings.SplitN(l, "invariant", 2)[1]))
+			case "step":
+				tr := f[3]
+				if tr != "IN" && tr != "INM" {
+					panic("stream step needs IN or INM: " + l)
+				}
+				if cur.StreamStep[n] == nil {
+					cur.StreamStep[n] = map[string][]Clause{}
+				}
+				cur.StreamStep[n][tr] = append(cur.StreamStep[n][tr], mkClause(strings.SplitN(l, " "+tr+" ", 2)[1]))
 			default:
 				panic("unknown stream clause: " + l)
 			}
@@ -340,6 +351,8 @@ type SpecEnv struct {
 	bound map[string]SV
 	cs    *Contracts
 	pkg   *types.Package
+	oldSt *BState // state old() refers to (default: entry state of the unit)
+	oldFr *Frame
 }
 
 func (env *SpecEnv) with(name string, v SV) *SpecEnv {
@@ -355,12 +368,30 @@ func (env *SpecEnv) with(name string, v SV) *SpecEnv {
 func boolSV(t *Term) SV { return &Scalar{T: t, Ty: types.Typ[types.Bool]} }
 func intSV(t *Term) SV  { return &Scalar{T: t, Ty: types.Typ[types.Int]} }
 
+var litLocal = regexp.MustCompile(`^L(\d+)_(\w+)$`)
+
 func (env *SpecEnv) lookupVar(name string) SV {
 	if v, ok := env.bound[name]; ok {
 		return v
 	}
 	if v, ok := env.st.ghost[name]; ok {
 		return v
+	}
+	if m := litLocal.FindStringSubmatch(name); m != nil {
+		// a local or parameter of the k-th function literal of the function under contract (an inlined callback)
+		k, _ := strconv.Atoi(m[1])
+		root := env.fr.fn
+		if k < 1 || k > len(root.AnonFuncs) {
+			panic("spec: " + name + ": no such function literal")
+		}
+		lf := env.e.lastFrame[root.AnonFuncs[k-1]]
+		if lf == nil {
+			panic("spec: " + name + ": the literal was not executed before this point")
+		}
+		sub := *env
+		sub.fr = lf
+		sub.bound = map[string]SV{}
+		return sub.lookupVar(m[2])
 	}
 	// heap-allocated (captured) variables of the current function
 	for _, b := range env.fr.fn.Blocks {
@@ -672,7 +703,7 @@ func (e *Exec) applyUF(name string, args []SV, ret types.Type) SV {
 	return build(ret, "", func(path, sort string, ty types.Type) *Term {
 		t := ufun("spec."+name+sanitize(path), sorts, sort, ts...)
 		// results of spec functions that stand for Go values respect the Go type's range
-		if sort == SInt && ty != nil {
+		if sort == SInt && ty != nil && !hasBound(t) {
 			if b, ok := ty.Underlying().(*types.Basic); ok {
 				if lo, hi, ok := intRange(b); ok {
 					e.assume(and(le(bigLit(lo), t), le(t, bigLit(hi))))
